@@ -1298,7 +1298,7 @@ func (r *vcRun) execMods(line string, trees []*vcTree) {
 		eb = r.direct(r.b, f.op)
 		switch f.op.kind {
 		case "add":
-			r.afterAdd(f.op.req, eb, r.ref, "C17,C20")
+			r.afterAdd(f.op.req, eb, r.ref, "C17")
 		case "rm":
 			r.ref.remove(f.op.ty, "-")
 		default:
